@@ -142,7 +142,7 @@ class Unit:
         self.assumptions.add(text)
 
     # ---- running ----------------------------------------------------------------------------
-    def paths(self, fi, setup, cfg: Cfg | None = None, max_paths=4000, label=None):
+    def paths(self, fi, setup, cfg: Cfg | None = None, max_paths=4000, label=None, then=None):
         """Explore all paths of fi(*args, **kwargs); setup(ex) -> (args, kwargs) builds symbolic inputs.
         Returns list[Path] (kinds: return | raise). Unsupported => UNDECIDED entry, empty list."""
         cfg = cfg or Cfg()
@@ -177,6 +177,14 @@ class Unit:
             import copy as _copy
             try:
                 v = ex.call_function(VFunc(fi), list(args), dict(kwargs), fr)
+                if then is not None:
+                    # further real calls on the result (a round trip, a second operation): INSIDE the exploration, so that every
+                    # branch they take is explored like those of the call itself
+                    ex.then_value, ex.then_exc = None, None
+                    try:
+                        ex.then_value = then(ex, v)
+                    except PyExc as pe2:
+                        ex.then_exc = pe2
                 return "return", v
             except PyExc as pe:
                 return "raise", pe.val
